@@ -7,8 +7,9 @@
     continue a selector (`stopsSel`), yields `.sel ⟨.bexpr, parts⟩`.
   * `eats_Selector_pointer` — on the JSON-pointer spelling `"/seg/seg…"` it yields
     `.sel ⟨.jsonPointer, parts⟩` (`~1`, `~0` denote `/`, `~`).
-  RESTRICTIONS: ASCII input; pointer segments over `[A-Za-z0-9-_.~:|]` and non-empty (the
-  grammar's `[\pL\pN-_.~:|]+` restricted to ASCII).
+  The input is valid UTF-8 text (`VT`); index literals may have any valid UTF-8 body; pointer
+  segments are non-empty valid UTF-8 whose runes are in the grammar's class `[\pL\pN-_.~:|]`
+  (`segRune`: Go's `unicode.L`, `unicode.N` tables, or one of `-_.~:|`).
 -/
 import Proofs.RoundTripLex
 
@@ -68,19 +69,19 @@ def PartSp.WF : PartSp → Prop
   | .dotIdent b x => isAlpha b.toNat = true ∧ AllIn isIdc x
   | .dotDigits d ds => AllIn isDigit (d :: ds)
   | .index ws₁ q body ws₂ val => AllIn isWs ws₁ ∧ AllIn isWs ws₂ ∧ (q = 0x60 ∨ q = 0x22) ∧
-      Asc body ∧ (∀ c ∈ body, c ≠ q) ∧ Strconv.unquote ([q] ++ (body ++ [q])) = some val
+      VT body ∧ (∀ c ∈ body, c ≠ q) ∧ Strconv.unquote ([q] ++ (body ++ [q])) = some val
 
-theorem PartSp.text_asc (p : PartSp) (h : p.WF) : Asc p.text := by
+theorem PartSp.text_vt (p : PartSp) (h : p.WF) : VT p.text := by
   cases p with
   | dotIdent b x =>
-    exact Asc.cons (by decide) (Asc.cons (isAlpha_lt h.1) (h.2.asc @isIdc_lt))
-  | dotDigits d ds => exact Asc.cons (by decide) (h.asc @isDigit_lt)
+    exact (Asc.cons (by decide) (Asc.cons (isAlpha_lt h.1) (h.2.asc @isIdc_lt))).vt
+  | dotDigits d ds => exact (Asc.cons (by decide) (h.asc @isDigit_lt)).vt
   | index ws₁ q body ws₂ val =>
     obtain ⟨h1, h2, hq, hb, _, _⟩ := h
     have hq' : q.toNat < 128 := by rcases hq with rfl | rfl <;> decide
-    exact Asc.cons (by decide) ((h1.asc @isWs_lt).append
-      ((Asc.cons hq' (hb.append (Asc.cons hq' Asc.nil))).append
-        ((h2.asc @isWs_lt).append (Asc.cons (by decide) Asc.nil))))
+    exact VT.cons (by decide) ((h1.asc @isWs_lt).appendV
+      ((VT.cons hq' (hb.append (VT.cons hq' VT.nil))).append
+        ((h2.asc @isWs_lt).appendV (VT.cons (by decide) VT.nil))))
 
 /-- a part spelling starts with `.` or `[` -/
 theorem PartSp.text_head (p : PartSp) : ∃ t, p.text = 46 :: t ∨ p.text = 91 :: t := by
@@ -119,14 +120,14 @@ theorem frame_get_head (l : String) (v : PVal) (fr : Frame) : Frame.get ((l, v) 
 
 /-- `[ "…" ]` -/
 theorem eats_IndexExpression {ws₁ ws₂ body val : GoString} {q : UInt8}
-    (h : (PartSp.index ws₁ q body ws₂ val).WF) (hr : Asc rest) :
+    (h : (PartSp.index ws₁ q body ws₂ val).WF) (hr : VT rest) :
     Eats rule (.ruleRef "IndexExpression") fr (PartSp.index ws₁ q body ws₂ val).text rest off errs
       fr (.str val) := by
   obtain ⟨h1, h2, hq, hb, hnq, hu⟩ := h
   have hq' : q.toNat < 128 := by rcases hq with rfl | rfl <;> decide
-  have hlit : Asc ([q] ++ (body ++ [q])) := Asc.cons hq' (hb.append (Asc.cons hq' Asc.nil))
+  have hlit : VT ([q] ++ (body ++ [q])) := VT.cons hq' (hb.append (VT.cons hq' VT.nil))
   have h2a : Asc ws₂ := h2.asc @isWs_lt
-  have hclose : Asc ([93] ++ rest) := Asc.cons (by decide) hr
+  have hclose : VT ([93] ++ rest) := VT.cons (by decide) hr
   -- ws₂ is followed by `]`, the literal by ws₂ or `]`, ws₁ by the opening quote
   have hstop2 : headIn isWs ([93] ++ rest) = false := rfl
   have hstop1 : headIn isWs (([q] ++ (body ++ [q])) ++ (ws₂ ++ [93]) ++ rest) = false := by
@@ -136,15 +137,15 @@ theorem eats_IndexExpression {ws₁ ws₂ body val : GoString} {q : UInt8}
     (errs := errs) h2 hstop2 hclose
   obtain ⟨v1, e1⟩ := eats_optWs (rule := Pinned.Grammar.rule_27.shown) (fr := [])
     (off := off + ([91] : GoString).length) (errs := errs) h1 hstop1
-    ((hlit.append (h2a.append (Asc.cons (by decide) Asc.nil))).append hr)
+    ((hlit.append (h2a.appendV (VT.cons (by decide) VT.nil))).append hr)
   have e3 := Eats.labeled (rule := Pinned.Grammar.rule_27.shown) (l := "lit") (fr := [])
     (by decide) (eats_StringLiteral (rule := Pinned.Grammar.rule_27.shown) (fr := [])
       (off := off + ([91] : GoString).length + ws₁.length) (errs := errs) hq body val hb hnq hu
-      (rest := (ws₂ ++ [93]) ++ rest) ((h2a.append (Asc.cons (by decide) Asc.nil)).append hr))
+      (rest := (ws₂ ++ [93]) ++ rest) ((h2a.append (Asc.cons (by decide) Asc.nil)).appendV hr))
   have hseq := EatsSeq.cons (Eats.lit (rule := Pinned.Grammar.rule_27.shown) (fr := [])
       (off := off) (errs := errs) [91] rfl (by decide)
       (rest := (ws₁ ++ (([q] ++ (body ++ [q])) ++ (ws₂ ++ [93]))) ++ rest)
-      (((h1.asc @isWs_lt).append (hlit.append (h2a.append (Asc.cons (by decide) Asc.nil)))).append
+      (((h1.asc @isWs_lt).appendV (hlit.append (h2a.appendV (VT.cons (by decide) VT.nil)))).append
         hr))
     (EatsSeq.cons e1 (EatsSeq.cons e3 (EatsSeq.cons e2
       (EatsSeq.one (Eats.lit [93] rfl (by decide) hr)))))
@@ -152,7 +153,7 @@ theorem eats_IndexExpression {ws₁ ws₂ body val : GoString} {q : UInt8}
     (by rw [act_of_sem sem_onIndexExpression2]; exact congrArg (ActOut.ret · none)
           (frame_get_head ..))))
 
-theorem fails_IndexExpression (hs : Asc s) (h : GoString.isPrefixOf [91] s = false) :
+theorem fails_IndexExpression (hs : VT s) (h : GoString.isPrefixOf [91] s = false) :
     Fails rule (.ruleRef "IndexExpression") fr s off errs := by
   apply Fails.ref look_IndexExpression (by decide)
   have hl : ∀ fr', Fails Pinned.Grammar.rule_27.shown (.lit [91] false) fr' s off errs :=
@@ -163,21 +164,21 @@ theorem fails_IndexExpression (hs : Asc s) (h : GoString.isPrefixOf [91] s = fal
 
 /-- one `.ident` / `.digits` / `[ "…" ]` step -/
 theorem eats_SelectorOrIndex (p : PartSp) (h : p.WF) (hstop : headIn isIdc rest = false)
-    (hr : Asc rest) :
+    (hr : VT rest) :
     Eats rule (.ruleRef "SelectorOrIndex") fr p.text rest off errs fr (.str p.part) := by
   cases p with
   | dotIdent b x =>
     obtain ⟨hb, hx⟩ := h
     have hseq := EatsSeq.cons (Eats.lit (rule := Pinned.Grammar.rule_26.shown) (fr := [])
         (off := off) (errs := errs) [46] rfl (by decide) (rest := (b :: x) ++ rest)
-        ((Asc.cons (isAlpha_lt hb) (hx.asc @isIdc_lt)).append hr))
+        ((Asc.cons (isAlpha_lt hb) (hx.asc @isIdc_lt)).appendV hr))
       (EatsSeq.one (Eats.labeled (l := "ident") (by decide) (eats_Identifier hb hx hstop hr)))
     exact Eats.ref look_SelectorOrIndex (by decide) (Eats.choice_hit (Eats.action (Eats.seq hseq)
       (by rw [act_of_sem sem_onSelectorOrIndex2]; exact congrArg (ActOut.ret · none)
             (frame_get_head ..))))
   | dotDigits d ds =>
     have hda : Asc (d :: ds) := h.asc @isDigit_lt
-    have hall : Asc ([46] ++ ([d] ++ ds) ++ rest) := (Asc.cons (by decide) hda).append hr
+    have hall : VT ([46] ++ ([d] ++ ds) ++ rest) := (Asc.cons (by decide) hda).appendV hr
     have hd : isAlpha d.toNat = false := by
       have h' : 48 ≤ d.toNat ∧ d.toNat ≤ 57 := by
         simpa [inCls, classMatches.inRanges] using h.head
@@ -187,8 +188,8 @@ theorem eats_SelectorOrIndex (p : PartSp) (h : p.WF) (hstop : headIn isIdc rest 
         (.seq [.lit [46] false, .labeled "ident" (.ruleRef "Identifier")])) []
         ([46] ++ ([d] ++ ds) ++ rest) off errs :=
       Fails.action (Fails.seq (FailsSeq.later (a := [46]) (rest := ([d] ++ ds) ++ rest)
-        (Eats.lit [46] rfl (by decide) (hda.append hr))
-        (FailsSeq.here (Fails.labeled (fails_Identifier (hda.append hr)
+        (Eats.lit [46] rfl (by decide) (hda.appendV hr))
+        (FailsSeq.here (Fails.labeled (fails_Identifier (hda.appendV hr)
           (by simpa [headIn] using hd))))))
     -- alternative 2: no `[`
     have f2 : Fails Pinned.Grammar.rule_26.shown (.action "onSelectorOrIndex7"
@@ -198,16 +199,16 @@ theorem eats_SelectorOrIndex (p : PartSp) (h : p.WF) (hstop : headIn isIdc rest 
     have hstop' : headIn isDigit rest = false := headIn_mono (fun _ => isDigit_idc) hstop
     have hseq := EatsSeq.cons (Eats.lit (rule := Pinned.Grammar.rule_26.shown) (fr := [])
         (off := off) (errs := errs) [46] rfl (by decide) (rest := ([d] ++ ds) ++ rest)
-        (hda.append hr))
+        (hda.appendV hr))
       (EatsSeq.one (Eats.labeled (l := "idx") (by decide)
-        (Eats.plus (Eats.cls (isDigit_lt h.head) h.head (hda.tail.append hr))
-          (EatsStar.cls ds hda.tail hr h.tail hstop'))))
+        (Eats.plus (Eats.cls (isDigit_lt h.head) h.head (hda.tail.appendV hr))
+          (EatsStar.cls (by decide) ds hda.tail hr h.tail hstop'))))
     exact Eats.ref look_SelectorOrIndex (by decide) (Eats.choice_next f1 (Eats.choice_next f2
       (Eats.choice_hit (Eats.action (Eats.seq hseq)
         (by rw [act_of_sem sem_onSelectorOrIndex10]; rfl)))))
   | index ws₁ q body ws₂ val =>
-    have hall : Asc ((PartSp.index ws₁ q body ws₂ val).text ++ rest) :=
-      (PartSp.text_asc _ h).append hr
+    have hall : VT ((PartSp.index ws₁ q body ws₂ val).text ++ rest) :=
+      (PartSp.text_vt _ h).append hr
     have f1 : Fails Pinned.Grammar.rule_26.shown (.action "onSelectorOrIndex2"
         (.seq [.lit [46] false, .labeled "ident" (.ruleRef "Identifier")])) []
         ((PartSp.index ws₁ q body ws₂ val).text ++ rest) off errs :=
@@ -217,7 +218,7 @@ theorem eats_SelectorOrIndex (p : PartSp) (h : p.WF) (hstop : headIn isIdc rest 
         (by rw [act_of_sem sem_onSelectorOrIndex7]; exact congrArg (ActOut.ret · none)
               (frame_get_head ..)))))
 
-theorem fails_SelectorOrIndex (hs : Asc s) (h : stopsSel s) :
+theorem fails_SelectorOrIndex (hs : VT s) (h : stopsSel s) :
     Fails rule (.ruleRef "SelectorOrIndex") fr s off errs := by
   have hdot : GoString.isPrefixOf [46] s = false := by
     cases s with
@@ -249,12 +250,12 @@ theorem fails_SelectorOrIndex (hs : Asc s) (h : stopsSel s) :
 
 def partsText (ps : List PartSp) : GoString := ps.flatMap PartSp.text
 
-theorem partsText_asc (ps : List PartSp) (h : ∀ p ∈ ps, p.WF) : Asc (partsText ps) := by
+theorem partsText_vt (ps : List PartSp) (h : ∀ p ∈ ps, p.WF) : VT (partsText ps) := by
   induction ps with
-  | nil => exact Asc.nil
+  | nil => exact VT.nil
   | cons p ps ih =>
-    show Asc (p.text ++ partsText ps)
-    exact (p.text_asc (h p (List.mem_cons_self ..))).append
+    show VT (p.text ++ partsText ps)
+    exact (p.text_vt (h p (List.mem_cons_self ..))).append
       (ih fun q hq => h q (List.mem_cons_of_mem _ hq))
 
 /-- what follows a part is not an identifier byte: the next part starts with `.` or `[` -/
@@ -270,7 +271,7 @@ theorem partsText_stop (ps : List PartSp) (hstop : stopsSel rest) :
       rw [ht]; rfl
 
 theorem eatsStar_parts (ps : List PartSp) (h : ∀ p ∈ ps, p.WF) (hstop : stopsSel rest)
-    (hr : Asc rest) :
+    (hr : VT rest) :
     EatsStar rule (.ruleRef "SelectorOrIndex") (partsText ps) rest off errs
       (ps.map fun p => .str p.part) := by
   induction ps generalizing off with
@@ -279,7 +280,7 @@ theorem eatsStar_parts (ps : List PartSp) (h : ∀ p ∈ ps, p.WF) (hstop : stop
     have hps : ∀ q ∈ ps, q.WF := fun q hq => h q (List.mem_cons_of_mem _ hq)
     exact EatsStar.more (a := p.text) (b := partsText ps)
       (eats_SelectorOrIndex p (h p (List.mem_cons_self ..)) (partsText_stop ps hstop)
-        ((partsText_asc ps hps).append hr))
+        ((partsText_vt ps hps).append hr))
       (ih hps)
 
 /-- a bexpr selector spelling: first identifier `b :: x`, then the parts -/
@@ -293,8 +294,8 @@ def SelSp.path (σ : SelSp) : List GoString := (σ.b :: σ.x) :: σ.parts.map Pa
 def SelSp.WF (σ : SelSp) : Prop :=
   isAlpha σ.b.toNat = true ∧ AllIn isIdc σ.x ∧ ∀ p ∈ σ.parts, p.WF
 
-theorem SelSp.text_asc (σ : SelSp) (h : σ.WF) : Asc σ.text :=
-  (Asc.cons (isAlpha_lt h.1) (h.2.1.asc @isIdc_lt)).append (partsText_asc _ h.2.2)
+theorem SelSp.text_vt (σ : SelSp) (h : σ.WF) : VT σ.text :=
+  (Asc.cons (isAlpha_lt h.1) (h.2.1.asc @isIdc_lt)).appendV (partsText_vt _ h.2.2)
 
 theorem asStrList_map (ps : List PartSp) :
     asStrList (ps.map fun p => PVal.str p.part) = some (ps.map PartSp.part) := by
@@ -303,11 +304,11 @@ theorem asStrList_map (ps : List PartSp) :
   | cons p ps ih => simp [asStrList, ih]
 
 /-- The rule `Selector` on a bexpr spelling yields the bexpr selector with the spelled path. -/
-theorem eats_Selector_bexpr (σ : SelSp) (h : σ.WF) (hstop : stopsSel rest) (hr : Asc rest) :
+theorem eats_Selector_bexpr (σ : SelSp) (h : σ.WF) (hstop : stopsSel rest) (hr : VT rest) :
     Eats rule (.ruleRef "Selector") fr σ.text rest off errs fr
       (.sel { ty := .bexpr, path := σ.path }) := by
   obtain ⟨hb, hx, hps⟩ := h
-  have hpa := partsText_asc _ hps
+  have hpa := partsText_vt _ hps
   have hseq := EatsSeq.cons
     (Eats.labeled (rule := Pinned.Grammar.rule_23.shown) (l := "first") (fr := []) (by decide)
       (eats_Identifier (off := off) (errs := errs) hb hx (partsText_stop σ.parts hstop)
@@ -324,43 +325,103 @@ theorem eats_Selector_bexpr (σ : SelSp) (h : σ.WF) (hstop : stopsSel rest) (hr
 section general_class
 variable {chars ranges : List Nat} {classes : List String} {p : Nat → Bool}
 
-theorem Eats.clsG (hcm : ∀ n, n < 128 → classMatches E chars ranges classes n = some (p n))
-    {b : UInt8} (hb : b.toNat < 128) (hin : p b.toNat = true) (hr : Asc rest) :
+/-- a class with Unicode classes on an ASCII byte -/
+theorem Eats.clsG (hcm : ∀ n, classMatches E chars ranges classes n = some (p n))
+    {b : UInt8} (hb : b.toNat < 128) (hin : p b.toNat = true) (hr : VT rest) :
     Eats rule (.charClass chars ranges classes false false) fr [b] rest off errs fr
       (.bytes [b]) := by
   have := Sem.class_ok (env := E) (g := G) (rule := rule) (fr := fr) (errs := errs)
     (pt := ptAt (b :: rest) off) (chars := chars) (ranges := ranges) (classes := classes)
     (inverted := false) (hit := true) (atEOF_cons _ _ hb)
-    (by rw [ptAt_rn_cons _ _ hb, hcm _ hb, hin]) (by decide)
-  rw [ptAt_next_cons _ _ hb, logRead_asc _ _ _ hr] at this
+    (by rw [ptAt_rn_cons _ _ hb, hcm, hin]) (by decide)
+  rw [ptAt_next_cons _ _ hb, logRead_vt _ _ _ hr] at this
   have e : sliceFrom (ptAt (b :: rest) off) (ptAt rest (off + 1)) = [b] :=
     sliceFrom_ptAt [b] rest off
   rw [e] at this
   exact this
 
-theorem Fails.clsG (hcm : ∀ n, n < 128 → classMatches E chars ranges classes n = some (p n))
-    (hs : Asc s) (h : headIn p s = false) :
+/-- … and on a multi-byte rune of the class: the whole encoding is consumed -/
+theorem Eats.clsG_rune (hcm : ∀ n, classMatches E chars ranges classes n = some (p n))
+    {r : Nat} (hv : Utf8.validRune r = true) (h80 : 0x80 ≤ r) (hin : p r = true) (hr : VT rest) :
+    Eats rule (.charClass chars ranges classes false false) fr (Utf8.encodeRune r) rest off errs fr
+      (.bytes (Utf8.encodeRune r)) := by
+  have := Sem.class_ok (env := E) (g := G) (rule := rule) (fr := fr) (errs := errs)
+    (pt := ptAt (Utf8.encodeRune r ++ rest) off) (chars := chars) (ranges := ranges)
+    (classes := classes) (inverted := false) (hit := true) (atEOF_rune _ _ hv h80)
+    (by rw [ptAt_rn_rune _ _ hv h80, hcm, hin]) (by decide)
+  rw [ptAt_next_rune _ _ hv h80, logRead_vt _ _ _ hr, sliceFrom_ptAt] at this
+  exact this
+
+/-- the input ends, or continues with an ASCII byte outside the class -/
+def stopsAt (p : Nat → Bool) (s : GoString) : Prop :=
+  match s with
+  | [] => True
+  | b :: _ => b.toNat < 128 ∧ p b.toNat = false
+
+theorem Fails.clsG (hcm : ∀ n, classMatches E chars ranges classes n = some (p n))
+    (h : stopsAt p s) :
     Fails rule (.charClass chars ranges classes false false) fr s off errs := by
   cases s with
   | nil => exact ⟨_, _, Sem.class_eof (atEOF_nil off)⟩
   | cons b t =>
-    have hb := hs.head
+    obtain ⟨hb, hp⟩ := h
     refine ⟨_, _, Sem.class_fail (hit := false) (atEOF_cons _ _ hb) ?_ rfl⟩
-    rw [ptAt_rn_cons _ _ hb, hcm _ hb]
-    exact congrArg some h
+    rw [ptAt_rn_cons _ _ hb, hcm]
+    exact congrArg some hp
 
-theorem EatsStar.clsG (hcm : ∀ n, n < 128 → classMatches E chars ranges classes n = some (p n))
-    (x : GoString) (hx : Asc x) (hr : Asc rest) (hin : AllIn p x)
-    (hstop : headIn p rest = false) :
-    EatsStar rule (.charClass chars ranges classes false false) x rest off errs (bytesOf x) := by
-  induction x generalizing off with
-  | nil => exact EatsStar.stop (Fails.clsG hcm hr hstop)
-  | cons b t ih =>
+/-- the starred class consumes text all of whose runes are in the class, rune by rune -/
+theorem EatsStar.clsG (hcm : ∀ n, classMatches E chars ranges classes n = some (p n))
+    (x : GoString) (hx : RunesIn p x) (hr : VT rest) (hstop : stopsAt p rest) :
+    ∃ vs, EatsStar rule (.charClass chars ranges classes false false) x rest off errs vs := by
+  induction hx generalizing off with
+  | nil => exact ⟨_, EatsStar.stop (Fails.clsG hcm hstop)⟩
+  | @asc b t hb hp ht ih =>
     have h1 : Eats rule (.charClass chars ranges classes false false) [] [b] (t ++ rest) off errs
-        [] (.bytes [b]) := Eats.clsG hcm hx.head hin.head (hx.tail.append hr)
-    exact EatsStar.more h1 (ih hx.tail hin.tail)
+        [] (.bytes [b]) := Eats.clsG hcm hb hp (ht.vt.append hr)
+    obtain ⟨vs, hvs⟩ := ih (off := off + ([b] : GoString).length)
+    exact ⟨_, EatsStar.more (a := [b]) h1 hvs⟩
+  | @rune r t hv h80 hp ht ih =>
+    have h1 : Eats rule (.charClass chars ranges classes false false) [] (Utf8.encodeRune r)
+        (t ++ rest) off errs [] (.bytes (Utf8.encodeRune r)) :=
+      Eats.clsG_rune hcm hv h80 hp (ht.vt.append hr)
+    obtain ⟨vs, hvs⟩ := ih (off := off + (Utf8.encodeRune r).length)
+    exact ⟨_, EatsStar.more (a := Utf8.encodeRune r) h1 hvs⟩
+
+/-- `[class]+` on non-empty text all of whose runes are in the class -/
+theorem Eats.plusG (hcm : ∀ n, classMatches E chars ranges classes n = some (p n))
+    (x : GoString) (hx : RunesIn p x) (hne : x ≠ []) (hr : VT rest) (hstop : stopsAt p rest) :
+    ∃ v, Eats rule (.oneOrMore (.charClass chars ranges classes false false)) fr x rest off errs
+      fr v := by
+  rcases hx.inv with rfl | ⟨b, t, rfl, hb, hp, ht⟩ | ⟨r, t, rfl, hv, h80, hp, ht⟩
+  · exact absurd rfl hne
+  · obtain ⟨vs, hvs⟩ := EatsStar.clsG (rule := rule) (off := off + ([b] : GoString).length)
+      (errs := errs) hcm t ht hr hstop
+    exact ⟨_, Eats.plus (a := [b]) (Eats.clsG hcm hb hp (ht.vt.append hr)) hvs⟩
+  · obtain ⟨vs, hvs⟩ := EatsStar.clsG (rule := rule)
+      (off := off + (Utf8.encodeRune r).length) (errs := errs) hcm t ht hr hstop
+    exact ⟨_, Eats.plus (a := Utf8.encodeRune r) (Eats.clsG_rune hcm hv h80 hp (ht.vt.append hr))
+      hvs⟩
 
 end general_class
+
+/-- the runes of `[\pL\pN-_.~:|]`: a letter or a number by Go's `unicode.L` / `unicode.N` tables,
+    or one of `-_.~:|` -/
+def segRune (n : Nat) : Bool :=
+  [45, 95, 46, 126, 58, 124].contains n || (Unicode.isL n || Unicode.isN n)
+
+/-- the engine's class test for `[\pL\pN-_.~:|]` is `segRune`, on every rune -/
+theorem segClass_all (n : Nat) :
+    classMatches E [45, 95, 46, 126, 58, 124] [] ["L", "N"] n = some (segRune n) := by
+  have hL : E.classIn "L" n = some (Unicode.isL n) := rfl
+  have hN : E.classIn "N" n = some (Unicode.isN n) := rfl
+  unfold classMatches segRune
+  by_cases h1 : [45, 95, 46, 126, 58, 124].contains n = true
+  · rw [if_pos h1, h1]; rfl
+  · have h1' : [45, 95, 46, 126, 58, 124].contains n = false := by simpa using h1
+    rw [if_neg h1, h1']
+    simp only [classMatches.inRanges, Bool.false_eq_true, if_false, classMatches.inClasses, hL, hN,
+      Bool.false_or]
+    cases Unicode.isL n <;> cases Unicode.isN n <;> rfl
 
 /-- ASCII members of `[\pL\pN-_.~:|]` -/
 def segChar (n : Nat) : Bool :=
@@ -368,58 +429,67 @@ def segChar (n : Nat) : Bool :=
     n == 45 || n == 95 || n == 46 || n == 126 || n == 58 || n == 124
 
 /-- On ASCII the class `[\pL\pN-_.~:|]` (Go's `unicode.L`, `unicode.N` tables) is `segChar`. -/
-theorem segClass_ascii : ∀ n, n < 128 →
-    classMatches E [45, 95, 46, 126, 58, 124] [] ["L", "N"] n = some (segChar n) := by
+theorem segRune_ascii : ∀ n, n < 128 → segRune n = segChar n := by
   decide +kernel
 
-/-- a pointer segment as written: non-empty, ASCII, over `[A-Za-z0-9-_.~:|]` -/
-def SegOK (seg : GoString) : Prop := seg ≠ [] ∧ Asc seg ∧ AllIn segChar seg
+/-- a pointer segment as written: non-empty valid UTF-8 all of whose runes are in
+    `[\pL\pN-_.~:|]` -/
+def SegOK (seg : GoString) : Prop := seg ≠ [] ∧ RunesIn segRune seg
+
+instance (seg : GoString) : Decidable (SegOK seg) := by unfold SegOK; infer_instance
+
+/-- the ASCII case: non-empty, over `[A-Za-z0-9-_.~:|]` -/
+theorem SegOK.of_ascii {seg : GoString} (hne : seg ≠ []) (ha : Asc seg) (hc : AllIn segChar seg) :
+    SegOK seg :=
+  ⟨hne, RunesIn.of_asc fun b hb => ⟨ha b hb, by rw [segRune_ascii _ (ha b hb)]; exact hc b hb⟩⟩
 
 def segsText (segs : List GoString) : GoString := segs.flatMap fun g => [47] ++ g
 
-theorem segsText_asc (segs : List GoString) (h : ∀ g ∈ segs, SegOK g) : Asc (segsText segs) := by
+theorem segsText_vt (segs : List GoString) (h : ∀ g ∈ segs, SegOK g) : VT (segsText segs) := by
   induction segs with
-  | nil => exact Asc.nil
+  | nil => exact VT.nil
   | cons g gs ih =>
-    show Asc (([47] ++ g) ++ segsText gs)
-    exact (Asc.cons (by decide) (h g (List.mem_cons_self ..)).2.1).append
+    show VT (([47] ++ g) ++ segsText gs)
+    exact (VT.cons (by decide) (h g (List.mem_cons_self ..)).2.vt).append
       (ih fun q hq => h q (List.mem_cons_of_mem _ hq))
 
-/-- `JsonPointerSegment <- '/' [\pL\pN-_.~:|]+` returns the segment text -/
-theorem eats_JsonPointerSegment {g : GoString} (hg : SegOK g) (hstop : headIn segChar rest = false)
-    (hr : Asc rest) :
-    Eats rule (.ruleRef "JsonPointerSegment") fr ([47] ++ g) rest off errs fr (.str g) := by
-  obtain ⟨hne, hga, hgc⟩ := hg
-  cases g with
-  | nil => exact absurd rfl hne
-  | cons c t =>
-    have hseq := EatsSeq.cons (Eats.lit (rule := Pinned.Grammar.rule_24.shown) (fr := [])
-        (off := off) (errs := errs) [47] rfl (by decide) (rest := ([c] ++ t) ++ rest)
-        (hga.append hr))
-      (EatsSeq.one (Eats.labeled (l := "ident") (by decide)
-        (Eats.plus (Eats.clsG segClass_ascii hga.head hgc.head (hga.tail.append hr))
-          (EatsStar.clsG segClass_ascii t hga.tail hr hgc.tail hstop))))
-    exact Eats.ref look_JsonPointerSegment (by decide) (Eats.action (Eats.seq hseq)
-      (by rw [act_of_sem sem_onJsonPointerSegment1]; rfl))
+theorem segRune_quote : segRune 34 = false := by decide +kernel
+theorem segRune_slash : segRune 47 = false := by decide +kernel
 
-theorem fails_JsonPointerSegment (hs : Asc s) (h : GoString.isPrefixOf [47] s = false) :
+/-- `JsonPointerSegment <- '/' [\pL\pN-_.~:|]+` returns the segment text -/
+theorem eats_JsonPointerSegment {g : GoString} (hg : SegOK g) (hstop : stopsAt segRune rest)
+    (hr : VT rest) :
+    Eats rule (.ruleRef "JsonPointerSegment") fr ([47] ++ g) rest off errs fr (.str g) := by
+  obtain ⟨hne, hgr⟩ := hg
+  obtain ⟨v, hv⟩ := Eats.plusG (rule := Pinned.Grammar.rule_24.shown) (fr := [])
+    (off := off + ([47] : GoString).length) (errs := errs) segClass_all g hgr hne hr hstop
+  have hseq := EatsSeq.cons (Eats.lit (rule := Pinned.Grammar.rule_24.shown) (fr := [])
+      (off := off) (errs := errs) [47] rfl (by decide) (rest := g ++ rest)
+      (hgr.vt.append hr))
+    (EatsSeq.one (Eats.labeled (l := "ident") (by decide) hv))
+  exact Eats.ref look_JsonPointerSegment (by decide) (Eats.action (Eats.seq hseq)
+    (by rw [act_of_sem sem_onJsonPointerSegment1]; rfl))
+
+theorem fails_JsonPointerSegment (hs : VT s) (h : GoString.isPrefixOf [47] s = false) :
     Fails rule (.ruleRef "JsonPointerSegment") fr s off errs :=
   Fails.ref look_JsonPointerSegment (by decide) (Fails.action (Fails.seq (FailsSeq.here
     (Fails.lit [47] rfl (by decide) hs h))))
 
-theorem eatsStar_segs (segs : List GoString) (h : ∀ g ∈ segs, SegOK g) (hr : Asc rest) :
+theorem eatsStar_segs (segs : List GoString) (h : ∀ g ∈ segs, SegOK g) (hr : VT rest) :
     EatsStar rule (.ruleRef "JsonPointerSegment") (segsText segs) ([34] ++ rest) off errs
       (segs.map .str) := by
-  have hq : Asc ([34] ++ rest) := Asc.cons (by decide) hr
+  have hq : VT ([34] ++ rest) := VT.cons (by decide) hr
   induction segs generalizing off with
   | nil => exact EatsStar.stop (fails_JsonPointerSegment hq rfl)
   | cons g gs ih =>
     have hgs : ∀ q ∈ gs, SegOK q := fun q hq => h q (List.mem_cons_of_mem _ hq)
-    have hstop : headIn segChar (segsText gs ++ ([34] ++ rest)) = false := by
-      cases gs <;> rfl
+    have hstop : stopsAt segRune (segsText gs ++ ([34] ++ rest)) := by
+      cases gs with
+      | nil => exact ⟨by decide, segRune_quote⟩
+      | cons g' gs' => exact ⟨by decide, segRune_slash⟩
     exact EatsStar.more (a := [47] ++ g) (b := segsText gs)
       (eats_JsonPointerSegment (h g (List.mem_cons_self ..)) hstop
-        ((segsText_asc gs hgs).append hq))
+        ((segsText_vt gs hgs).append hq))
       (ih hgs)
 
 theorem asStrList_str (segs : List GoString) : asStrList (segs.map PVal.str) = some segs := by
@@ -429,12 +499,12 @@ theorem asStrList_str (segs : List GoString) : asStrList (segs.map PVal.str) = s
 
 /-- The rule `Selector` on `"/seg/seg…"` yields the JSON-pointer selector whose path is
     `pointerstructure.Parse` of the text (split at `/`, `~1` ↦ `/`, `~0` ↦ `~`). -/
-theorem eats_Selector_segs (segs : List GoString) (h : ∀ g ∈ segs, SegOK g) (hr : Asc rest) :
+theorem eats_Selector_segs (segs : List GoString) (h : ∀ g ∈ segs, SegOK g) (hr : VT rest) :
     Eats rule (.ruleRef "Selector") fr ([34] ++ (segsText segs ++ [34])) rest off errs fr
       (.sel { ty := .jsonPointer, path := ptrParse segs }) := by
-  have hsa := segsText_asc segs h
-  have hall : Asc ([34] ++ (segsText segs ++ [34]) ++ rest) :=
-    (Asc.cons (by decide) (hsa.append (Asc.cons (by decide) Asc.nil))).append hr
+  have hsa := segsText_vt segs h
+  have hall : VT ([34] ++ (segsText segs ++ [34]) ++ rest) :=
+    (VT.cons (by decide) (hsa.append (VT.cons (by decide) VT.nil))).append hr
   -- alternative 1 fails: `"` is not a letter
   have f1 : Fails Pinned.Grammar.rule_23.shown (.action "onSelector2" (.seq [
       .labeled "first" (.ruleRef "Identifier"),
@@ -443,7 +513,7 @@ theorem eats_Selector_segs (segs : List GoString) (h : ∀ g ∈ segs, SegOK g) 
     Fails.action (Fails.seq (FailsSeq.here (Fails.labeled (fails_Identifier hall rfl))))
   have hseq := EatsSeq.cons (Eats.lit (rule := Pinned.Grammar.rule_23.shown) (fr := [])
       (off := off) (errs := errs) [34] rfl (by decide) (rest := (segsText segs ++ [34]) ++ rest)
-      ((hsa.append (Asc.cons (by decide) Asc.nil)).append hr))
+      ((hsa.append (VT.cons (by decide) VT.nil)).append hr))
     (EatsSeq.cons (Eats.labeled (l := "ptrsegs") (by decide)
         (Eats.star (eatsStar_segs segs h hr)))
       (EatsSeq.one (Eats.lit [34] rfl (by decide) hr)))
@@ -458,10 +528,10 @@ def pointerText (path : List GoString) : GoString :=
   [34] ++ (segsText (path.map ptrEscape) ++ [34])
 
 /-- `"/a/b~1c"` denotes the path `[a, b/c]`: the rule `Selector` on the pointer spelling of
-    `path` yields `⟨.jsonPointer, path⟩`.  RESTRICTION: every escaped element is non-empty
-    ASCII over `[A-Za-z0-9-_.~:|]`. -/
+    `path` yields `⟨.jsonPointer, path⟩`.  RESTRICTION (the grammar's): every escaped element is
+    non-empty valid UTF-8 over `[\pL\pN-_.~:|]` (`SegOK`). -/
 theorem eats_Selector_pointer (path : List GoString) (hne : path ≠ [])
-    (h : ∀ p ∈ path, SegOK (ptrEscape p)) (hr : Asc rest) :
+    (h : ∀ p ∈ path, SegOK (ptrEscape p)) (hr : VT rest) :
     Eats rule (.ruleRef "Selector") fr (pointerText path) rest off errs fr
       (.sel { ty := .jsonPointer, path := path }) := by
   have := eats_Selector_segs (rule := rule) (fr := fr) (off := off) (errs := errs)
